@@ -506,6 +506,46 @@ pub fn run(ctx: &Ctx) -> Report {
                     }
                 }
             }
+            // a medium search (depth 6) answered quietly and while the GUI keeps sending isready
+            // (bursts of 100 every 10 ms until the bestmove): the command loop runs alongside the
+            // search and whatever it does must not change the search
+            {
+                let run1 = |flood: bool| -> (String, String) {
+                    let Ok(mut e) = Engine::spawn(&ctx.engine, &[]) else { return (String::new(), String::new()) };
+                    e.send(&format!("position fen {fen}"));
+                    e.send("go depth 6");
+                    let mut best = None;
+                    let t = Instant::now();
+                    while best.is_none() && t.elapsed() < Duration::from_secs(300) {
+                        if flood {
+                            let mut text = String::new();
+                            for _ in 0..100 {
+                                text.push_str("isready\n");
+                            }
+                            e.send_raw(text.as_bytes());
+                        }
+                        best = e.wait_for(Duration::from_millis(if flood { 10 } else { 1000 }), |ev| (ev.stream == Stream::Out && ev.line.starts_with("bestmove")) || ev.eof);
+                    }
+                    let nodes = e.stdout_lines().iter().rev().find(|l| l.line.starts_with("info") && l.line.contains(" nodes ")).and_then(|l| {
+                        let toks: Vec<&str> = l.line.split_whitespace().collect();
+                        toks.iter().position(|t| *t == "nodes").and_then(|i| toks.get(i + 1)).map(|s| s.to_string())
+                    });
+                    e.send("quit");
+                    (best.map(|b| b.line).unwrap_or_default(), nodes.unwrap_or_default())
+                };
+                let quiet = run1(false);
+                let f1 = run1(true);
+                let f2 = run1(true);
+                rep.eval(3);
+                rep.class("depth-6 search quiet vs under a continuous isready flood x2");
+                rep.nontrivial(o::hash_str("isready-flood-depth-6"));
+                let all = [quiet.clone(), f1, f2];
+                if all.iter().any(|x| x.0.is_empty() || x.1.is_empty()) {
+                    rep.class("flooded-search:unanswered-within-300s(not compared)");
+                } else if all.iter().any(|x| x != &quiet) {
+                    rep.violation(Violation::new("across-processes", "across-processes/isready-flood-differs", format!("'position fen {fen}' + 'go depth 6' answered {:?} quietly and {:?} / {:?} while isready kept arriving", all[0], all[1], all[2]), json!({"fen": fen, "depth": 6})));
+                }
+            }
             let opt = run_many(vec![vec![], vec!["setoption name Hash value 1", "setoption name Threads value 1", "setoption name Move Overhead value 10"], vec!["setoption name Hash value 1"]], 6, false);
             rep.eval(opt.len() as u64);
             if opt.len() >= 2 {
@@ -609,5 +649,5 @@ pub fn replay(ctx: &Ctx, case: &Value) -> Report {
 }
 
 pub const LEVEL: &str = "exploration";
-pub const RULE: &str = "(position, depth) = the 62 bench FENs at depth 4-5 (quick) / 5-6 (thorough), corpus positions at depth 3-4 and 30/120 positions WITH game history (10-16 plies of weighted play, so remembered repetitions matter), each searched from an emptied cache 3 times per process in different orders with searches of other positions in between, in 4 separate processes running at the same time as 10 busy-loop processes and as the real 'bench' subcommand (x2 quick / x4 thorough, one run frozen for 6 s by SIGSTOP/SIGCONT); the same searches as the only search of a fresh engine process (x4: plain; after ucinewgame with the command loop held 60 ms after spawning the search; after ucinewgame with 200 ms + the search thread held 30 ms; with 300 isready lines sent while the search runs) must equal the long-lived processes' results; one deep search (depth 8 quick / 9 thorough, > 250 000 cache entries) in three concurrent engine processes, one frozen for 1.2 s; five (quick) / eight (thorough) decided endings and mating attacks searched to depth 8-12 in four fresh processes each (many root moves cost the same there, so an ordering of equals that varies from process to process shows in the node count); a depth-6 search with and without the advertised options set; each worker process starts with a different primer search (other side to move, drawn endings, a game with repetitions) and visits the list in its own rotation, reverse rotation and stride order; draw-rich positions (stalemate traps, fifty-move clocks 96-97, to-and-fro histories) are part of the list; a cold-start storm (4000 quick / 40000 thorough freshly started engine processes, 128 at a time while the busy loops run, the whole input written at once so the first search overlaps with whatever the process does right after start-up) must give one single (bestmove, nodes) answer; oracle = equality of (bestmove, root score, node count) across all repetitions and processes, and of the bench node total. Non-trivial = (position, depth) with >= 1000 nodes, plus the bench comparison; distinct by (position, depth).";
+pub const RULE: &str = "(position, depth) = the 62 bench FENs at depth 4-5 (quick) / 5-6 (thorough), corpus positions at depth 3-4 and 30/120 positions WITH game history (10-16 plies of weighted play, so remembered repetitions matter), each searched from an emptied cache 3 times per process in different orders with searches of other positions in between, in 4 separate processes running at the same time as 10 busy-loop processes and as the real 'bench' subcommand (x2 quick / x4 thorough, one run frozen for 6 s by SIGSTOP/SIGCONT); the same searches as the only search of a fresh engine process (x4: plain; after ucinewgame with the command loop held 60 ms after spawning the search; after ucinewgame with 200 ms + the search thread held 30 ms; with 300 isready lines sent while the search runs) must equal the long-lived processes' results; one deep search (depth 8 quick / 9 thorough, > 250 000 cache entries) in three concurrent engine processes, one frozen for 1.2 s; five (quick) / eight (thorough) decided endings and mating attacks searched to depth 8-12 in four fresh processes each (many root moves cost the same there, so an ordering of equals that varies from process to process shows in the node count); a depth-6 search answered quietly and twice under a continuous isready flood; a depth-6 search with and without the advertised options set; each worker process starts with a different primer search (other side to move, drawn endings, a game with repetitions) and visits the list in its own rotation, reverse rotation and stride order; draw-rich positions (stalemate traps, fifty-move clocks 96-97, to-and-fro histories) are part of the list; a cold-start storm (4000 quick / 40000 thorough freshly started engine processes, 128 at a time while the busy loops run, the whole input written at once so the first search overlaps with whatever the process does right after start-up) must give one single (bestmove, nodes) answer; oracle = equality of (bestmove, root score, node count) across all repetitions and processes, and of the bench node total. Non-trivial = (position, depth) with >= 1000 nodes, plus the bench comparison; distinct by (position, depth).";
 pub const ASSUMPTIONS: &[&str] = &["equality is the whole oracle; nothing is assumed about which move is best", "machine load is produced by the harness itself (10 busy loops + concurrent bench runs on 16 cores)"];
